@@ -197,12 +197,53 @@ fn do_pair(out: &mut Out, a: u32, b: u32) {
     }
 }
 
+/// `infos x<hex>`: the real `aircraft_information` on an arbitrary TEXT (the `Err` path is the parse of the text
+/// as a hexadecimal u32; the four `unwrap`/slice sites behind it must never fire)
+fn do_infos(out: &mut Out, text: &str) {
+    let enc: String = text.bytes().map(|b| format!("{b:02x}")).collect();
+    let line = format!("infos x{enc}");
+    let r = guarded(|| aircraft_information(text, None));
+    let want_ok = u32::from_str_radix(text, 16).is_ok();
+    match &r {
+        None => {
+            out.case(&line, "panic");
+            out.fail("info-panic", &line, &format!("aircraft_information({text:?}) panicked"));
+        }
+        Some(Err(_)) => {
+            out.case(&line, "err");
+            if want_ok {
+                out.fail("info-err", &line, &format!("aircraft_information refused the hexadecimal address {text:?}"));
+            }
+        }
+        Some(Ok(i)) => {
+            out.case(&line, &format!("ok reg={} country={} pattern={} category={}", opt(&i.registration), opt(&i.country), opt(&i.pattern), opt(&i.category)));
+            if !want_ok {
+                out.fail("info-accepted", &line, &format!("aircraft_information accepted {text:?}, which is no hexadecimal u32"));
+            }
+        }
+    }
+    out.stat(if want_ok { "infos:hex" } else { "infos:not-hex" });
+}
+
+fn unhex(s: &str) -> Option<String> {
+    let b = s.strip_prefix('x')?;
+    if b.len() % 2 != 0 {
+        return None;
+    }
+    let bytes: Option<Vec<u8>> = (0..b.len() / 2).map(|i| u8::from_str_radix(b.get(2 * i..2 * i + 2)?, 16).ok()).collect();
+    String::from_utf8(bytes?).ok()
+}
+
 pub fn one(out: &mut Out, line: &str) {
     let mut ctx = Ctx::new();
     let p: Vec<&str> = line.split_whitespace().collect();
     match p.as_slice() {
         ["tail", h] => do_tail(out, &mut ctx, h.parse().unwrap()),
         ["country", h] => do_country(out, &mut ctx, h.parse().unwrap()),
+        ["infos", t] => match unhex(t) {
+            Some(text) => do_infos(out, &text),
+            None => out.notes.push(format!("bad replay line: {line}")),
+        },
         ["tails", lo, n] => do_tails(out, &mut ctx, lo.parse().unwrap(), n.parse().unwrap(), true),
         ["pair", a, b] => do_pair(out, a.parse().unwrap(), b.parse().unwrap()),
         _ => out.notes.push(format!("bad replay line: {line}")),
@@ -304,6 +345,33 @@ pub fn run(out: &mut Out, rng: &mut Rng, thorough: bool) {
         if k % 16 == 0 {
             do_country(out, &mut ctx, h);
         }
+    }
+    // aircraft_information on TEXTS: spellings of hexadecimal numbers, near misses, arbitrary strings
+    for t in [
+        "", "+", "-", "0", "+0", "-0", "3949f9", "3949F9", "+3949f9", "0x3949f9", " 3949f9", "3949f9 ", "39 49f9", "ffffffff", "FFFFFFFF",
+        "100000000", "0ffffffff", "00000000000000a00001", "+ffffffff", "++1", "g", "a0000g", "é", "39é9f9", "٣٩", "a00001\0", "_1", "1_0",
+        "7c0000", "a00001", "c00001", "484000", "71ba00", "840000", "e40000", "000000",
+    ] {
+        do_infos(out, t);
+    }
+    for k in 0..(if thorough { 20_000u32 } else { 4_000 }) {
+        let text = match k % 5 {
+            0 => format!("{:x}", (rng.next() >> 32) as u32),
+            1 => format!("{:06X}", rng.below(1 << 24)),
+            2 => format!("{}{:x}", rng.pick(&["+", "-", "0x", " ", "00", "+0"]), rng.below(1 << 26)),
+            3 => {
+                // a hexadecimal number with one character replaced
+                let mut cs: Vec<char> = format!("{:06x}", rng.below(1 << 24)).chars().collect();
+                let i = rng.below(cs.len() as u64) as usize;
+                cs[i] = *rng.pick(&['g', 'G', ' ', '-', '+', 'x', 'é', '٣', '\u{0}', 'f', '0']);
+                cs.into_iter().collect()
+            }
+            _ => {
+                let n = rng.below(12) as usize;
+                (0..n).map(|_| *rng.pick(&['0', '1', '9', 'a', 'f', 'A', 'F', 'g', '+', '-', ' ', 'x', 'é', 'z'])).collect()
+            }
+        };
+        do_infos(out, &text);
     }
     // block digests: all 2^24 addresses (thorough) / 512 random blocks (quick)
     if thorough {
